@@ -21,8 +21,8 @@
     * `Dict[str, Set[str]]` — association list with distinct keys, sets as duplicate-free lists;
       `sorted(d.items())` orders by key, `sorted(escaped_vals)` by code point (stable merge sort);
     * `if not val: continue`  — `None` and `""` are both skipped;
-    * `self.qualifiers.copy()` is shallow, so `qualifiers[key].add(val)` also mutates the object's own set
-      (F-C10b); the FIRST export — the one modelled — is unaffected by that aliasing;
+    * the exported dictionaries are copies (since the F-C10b fix the objects' own sets are not touched), so every
+      export of the same objects yields the rows modelled here;
     * generators inside `sorted(...)`: the first exception raised by any child aborts the export.
 -/
 import BioCantor.Base
